@@ -1,6 +1,6 @@
 """Shared machinery for all checks: scratch build of /repo, Coq gate, case evaluation
 inside Coq, evidence, replay files, known findings."""
-import fcntl, hashlib, json, os, random, re, shutil, subprocess, sys, tempfile, time
+import atexit, fcntl, hashlib, json, os, random, re, shutil, subprocess, sys, tempfile, time
 from concurrent.futures import ThreadPoolExecutor
 from pathlib import Path
 
@@ -24,9 +24,27 @@ def go_env(extra=None):
     env.pop("GOFLAGS", None)       # -mod=mod is rejected in workspace mode
     env.pop("GOSUMDB", None)
     env.pop("GOTOOLCHAIN", None)
+    if _GOCACHE_OVERRIDE:
+        env["GOCACHE"] = _GOCACHE_OVERRIDE
     if extra:
         env.update(extra)
     return env
+
+
+_GOCACHE_OVERRIDE = None
+# what the go command prints when the shared build cache was pruned or wiped under it (not a property of the tree)
+_CACHE_DAMAGE = re.compile(r"go-build[^\n]*(no such file|cannot open)|cannot open file [^\n]*go-build|could not import [^\n]*\(open [^\n]*no such file")
+
+
+def go_build(args, cwd, timeout=900):
+    """go build with one retry under a private build cache when the shared cache is damaged (concurrent `go clean -cache`)."""
+    global _GOCACHE_OVERRIDE
+    p = run(["go", "build"] + args, cwd=cwd, env=go_env(), timeout=timeout)
+    if p.returncode != 0 and _GOCACHE_OVERRIDE is None and _CACHE_DAMAGE.search(p.stderr.decode(errors="replace")):
+        _GOCACHE_OVERRIDE = tempfile.mkdtemp(prefix="vf-gocache-")
+        atexit.register(shutil.rmtree, _GOCACHE_OVERRIDE, ignore_errors=True)
+        p = run(["go", "build"] + args, cwd=cwd, env=go_env(), timeout=timeout * 2)
+    return p
 
 
 def run(cmd, cwd=None, env=None, timeout=600, inp=None, check=False):
@@ -72,14 +90,13 @@ class Ctx:
         tree = self.scratch / "tree"
         run(["rsync", "-a", "--exclude", ".git", str(REPO) + "/", str(tree) + "/"], check=True)
         self.tree = tree
-        env = go_env()
-        p = run(["go", "build", "-o", str(self.scratch / "mockery"), "."], cwd=tree, env=env, timeout=900)
+        p = go_build(["-o", str(self.scratch / "mockery"), "."], cwd=tree)
         if p.returncode != 0:
             self.build_failure("mockery", p)
             return False
         self.bins["mockery"] = str(self.scratch / "mockery")
         if tools:
-            p = run(["go", "build", "-o", str(self.scratch / "tools"), "."], cwd=tree / "tools", env=env, timeout=900)
+            p = go_build(["-o", str(self.scratch / "tools"), "."], cwd=tree / "tools")
             if p.returncode != 0:
                 self.build_failure("tools", p)
                 return False
@@ -87,7 +104,7 @@ class Ctx:
         for d in drivers:
             dst = tree / "zz_verif" / d
             shutil.copytree(VERIF / "harness" / "go" / d, dst)
-            p = run(["go", "build", "-o", str(self.scratch / d), "."], cwd=dst, env=env, timeout=900)
+            p = go_build(["-o", str(self.scratch / d), "."], cwd=dst)
             if p.returncode != 0:
                 self.build_failure(d, p)
                 return False
